@@ -115,13 +115,17 @@ def native_ppo_replay(flags):
             ret = v + jnp.asarray(rng.randn(B) * 2.0, f32)
             adv = jnp.asarray(rng.randn(B), f32)
             buf = RolloutBuffer(obs, act, jnp.zeros(B), jnp.zeros(B, bool), old_lp, old_v, None, None, ret, adv)
-            eps, cv, ce = 0.2, 0.5, 0.01
+            # coefficients of both signs and zero (a negative entropy coefficient is an entropy penalty); the counter-model's own values on the last trial
+            eps, cv, ce = [(0.2, 0.5, 0.01), (0.1, 0.25, -0.01), (0.3, 1.0, 0.0), (0.2, 0.5, -0.5), (0.2, 0.0, 0.3), (0.2, -0.5, 0.01)][trial]
+            if trial == 5 and model is not None:
+                eps = kit.model_float(model, "clip_eps", eps) or eps
+                cv, ce = kit.model_float(model, "c_value", cv), kit.model_float(model, "c_entropy", ce)
             loss, stats = PPO.ppo_loss(pol, buf, normalize, eps, clip_value, cv, ce)
             sp = spec_ppo(pol, buf, normalize, eps, clip_value, cv, ce)
             got = dict(loss=float(loss), policy_loss=float(stats.policy_loss), value_loss=float(stats.value_loss), entropy_loss=float(stats.entropy_loss), approx_kl=float(stats.approx_kl))
             exp = {k: float(x) for k, x in sp.items()}
             if any(abs(got[k] - exp[k]) > 1e-4 * (1 + abs(exp[k])) for k in got):
-                return dict(reproduced=True, route="R1", inputs=dict(B=B, normalize_advantages=normalize, clip_value_loss=clip_value, clip_coefficient=eps,
+                return dict(reproduced=True, route="R1", inputs=dict(B=B, normalize_advantages=normalize, clip_value_loss=clip_value, clip_coefficient=eps, value_loss_coefficient=cv, entropy_loss_coefficient=ce,
                                                                     returns=np.asarray(ret).tolist(), old_values=np.asarray(old_v).tolist(), values=np.asarray(v).tolist()),
                             observed=dict(real=got, published_objective=exp))
         return dict(reproduced=False, note="6 random native batches agree with the published objective")
